@@ -292,9 +292,6 @@ func (e *Environment) Get(name string) (Object, bool) {
 		}
 		return nil, false
 	}
-	if e.function != nil && e.function.Name != nil && name == e.function.Name.Literal() {
-		return *e.function, true
-	}
 	obj, ok := e.store[name]
 	if ok {
 		// using references to non constant (extensions are constants) implies uncacheable.
@@ -303,6 +300,10 @@ func (e *Environment) Get(name string) (Object, bool) {
 			log.Debugf("get(%s) GETMISS %d", name, e.getMiss)
 		}
 		return obj, true
+	}
+	// (after the function's own variables: a parameter or loop variable named like the function is that variable.)
+	if e.function != nil && e.function.Name != nil && name == e.function.Name.Literal() {
+		return *e.function, true
 	}
 	if e.outer == nil {
 		return nil, false
